@@ -41,8 +41,23 @@ def project_ds(runner, k, ndim):
     P = np.asarray(P)
     V, lam, inv, const, tail, hz = [np.asarray(x) for x in ds._fd_low_rank_unpack(jnp.asarray(P), k)]
     out.append({"V": V, "lam": lam, "tail": tail, "arg": fc.inv_to_arg(inv, 2 * ndim),
-                "targ": fc.inv_to_arg(const, 2 * ndim), "hz": bool(hz)})
+                "targ": fc.inv_to_arg(const, 2 * ndim), "hz": bool(hz),
+                "inv": np.asarray(inv, np.float64), "const": float(const)})
   return out
+
+
+def fd_direction(G, projs):
+  """The gradient preconditioned along every axis by the matrix each stored packed FD preconditioner denotes:
+  c (I - V V') + V diag(inv) V', the identity when the has-zeros flag is set (C10's reading of the layout)."""
+  D = np.asarray(G, np.float64)
+  for a, pr in enumerate(projs):
+    n = D.shape[a]
+    if pr["hz"]:
+      continue
+    V = np.asarray(pr["V"], np.float64)[:n]
+    M = pr["const"] * (np.eye(n) - V @ V.T) + (V * pr["inv"][np.newaxis, :]) @ V.T
+    D = np.moveaxis(np.tensordot(M, D, axes=([1], [a])), 0, a)
+  return D
 
 
 def project_tf(runner, ndim):
@@ -84,10 +99,28 @@ def handle(job):
       Qs = [fc.orth(rs, n) for n in shape]
       for si, st in enumerate(b["steps"]):
         G = tensor_grad(Qs, st["g"])
-        runner.step({"p0": jnp.asarray(G.astype(np.float32))})
+        G32 = G.astype(np.float32)
+        u = runner.step({"p0": jnp.asarray(G32)})
         projs = project_ds(runner, k, ndim) if impl == "dsrun" else project_tf(runner, ndim)
         if len(projs) != ndim:
           raise core.MachineryError(f"expected {ndim} sketches, found {len(projs)}")
+        # well-posed only where the complement of the sketch has a definite weight: with escaped mass 0 and no
+        # ridge the stored complement root is (float residue)^(-1/p) ~ 1e3..1e4 and amplifies the float32
+        # rounding of the gradient itself (observed: direction decided by noise)
+        e0 = fc.Exp(st, shape[0], cfg["bd"])
+        posed = e0.t > 1e-3 * e0.scale
+        if (impl == "dsrun" and not job.get("mixed") and o.get("beta1", 0.0) == 0.0 and si >= o["Start"]
+            and np.any(G32) and posed):
+          # the emitted update (no momentum, no weight decay; grafting only rescales) must point along the
+          # gradient preconditioned by the roots stored at this very step (P = 1, replicated mode)
+          uu = -np.asarray(runner.host_update(u)["p0"], np.float64)
+          dd = fd_direction(G32, projs)
+          nu, nd = np.linalg.norm(uu), np.linalg.norm(dd)
+          if np.isfinite(nu) and np.isfinite(nd) and nd > 0:
+            dev = float(np.abs(uu / nu - dd / nd).max()) if nu > 0 else 1.0
+            worst["update_direction"] = max(worst.get("update_direction", 0.0), dev)
+            if dev > 1e-3:
+              bad.append([si, -1, "update_is_not_the_fd_preconditioned_gradient", dev])
         for a, pr in enumerate(projs):
           e = fc.Exp(st, shape[a], cfg["bd"])
           eps = 0.0
